@@ -17,7 +17,8 @@ RULE = (
     "the C06 families and random directed/undirected multigraphs over the vertex-class zoo (incl. vertices whose "
     "truth value is False and universes as members); stored values contain deliberate duplicates, sought values are "
     "equal-but-not-identical objects (1000 vs 1000.0, run-time built strings/tuples), absent values, and attributes "
-    "missing on some vertices.  Oracle: first vertex of the corresponding real traversal (default settings) having "
+    "missing on some vertices, and attributes a vertex only has through its class (class-level default, property, "
+    "uid, slot).  Oracle: first vertex of the corresponding real traversal (default settings) having "
     "the attribute == value.  Non-trivial = some listed vertex matches; distinct = distinct (graph shape, key "
     "placement, start, sought value)."
 )
@@ -66,13 +67,18 @@ class EqAll:
 
 ABSENT = ["nope", 777, (), 3.25, EqAll()]
 
+# attributes a vertex has without their being in its __dict__: a class-level default (VSub.kind), properties
+# (VFancy.parity, and uid on every vertex), a slot (VSlots.slot_a)
+CLASS_ATTRS = {"kind": ["sub", "nope"], "parity": [0, 1, 1.0], "slot_a": [["sa", 1], ["sa", 0], ["sa", 3]]}
+
 
 def floors(ctx):
     q = ctx.tier == "quick"
     return {"evaluations": 3000 if q else 30000, "match_deep": 100 if q else 1000,
             "multi_match": 100 if q else 1000, "match_is_falsy": 100 if q else 1000,
             "no_match_none": 100 if q else 1000, "match_is_start": 20, "sought_not_identical": 100,
-            "some_vertex_lacks_attr": 100, "match_only_outside_universe": 10, "cases_with_caching_on": 100, "identical_but_unequal_value_sought": 20}
+            "some_vertex_lacks_attr": 100, "match_only_outside_universe": 10, "cases_with_caching_on": 100, "identical_but_unequal_value_sought": 20,
+            "match_through_class_level_attribute_or_property": 100}
 
 
 def _matches(v, attr, val):
@@ -93,6 +99,10 @@ def _run_case(ctx, spec, si, attr, vi, absent, _shrinking, cache):
         ctx.count("cases_with_caching_on")
     start, uni = g.verts[si], g.uni
     val = sought(vi) if absent is None else ABSENT[absent]
+    if attr == "uid":
+        val = int(str(g.verts[vi % len(g.verts)].uid))  # some vertex's uid, as an equal but distinct int object
+    elif attr in CLASS_ATTRS:
+        val = CLASS_ATTRS[attr][vi % len(CLASS_ATTRS[attr])]
     found = []
     case = {"spec": spec, "start": si, "attr": attr, "vi": vi, "absent": absent, "cache": bool(cache)}
     # the searches run first, on a graph nothing has been read from yet; the traversals that define the
@@ -123,6 +133,8 @@ def _run_case(ctx, spec, si, attr, vi, absent, _shrinking, cache):
                 ctx.count("match_is_falsy")
             if getattr(exp, attr) is not val:
                 ctx.count("sought_not_identical")
+            if attr not in vars(exp):
+                ctx.count("match_through_class_level_attribute_or_property")
         else:
             ctx.count("no_match_none")
             if val is NAN and any(getattr(v, attr, None) is NAN for v in order):
@@ -217,6 +229,8 @@ def run(ctx):
                 run_case(ctx, spec, si, "key", 0, absent=r.randrange(len(ABSENT)), cache=r.random() < 0.4)
         # other attribute names: the construction index (unique) and a real property
         run_case(ctx, dict(spec, attrs={}), r.choice(starts), "idx", 1)
+        run_case(ctx, spec, r.choice(starts), r.choice(["uid", "uid", "kind", "parity", "slot_a"]), r.randrange(12),
+                 cache=r.random() < 0.3)
         k += 1
         if k in (3, 400) and ctx.shard == 0:
             ctx.sample({"spec": spec, "start": si, "attr": "key", "sought": repr(sought(pool[0]))})
